@@ -473,6 +473,14 @@ class Doist(tyming.Tymist):
         if deeds is None:
             deeds = self.deeds
 
+        # When closing in the middle of a run through, the deeds left of the
+        # marker have not yet run this cycle and were entered after the deeds
+        # right of it. Rotate so popping from the right is reverse enter order.
+        for i, deed in enumerate(deeds):
+            if not deed[0]:  # run through once marker
+                deeds.rotate(-(i + 1))
+                break
+
         while(deeds):  # .close each remaining dog in deeds in reverse order
             dog, retime, doer = deeds.pop()  # pop it off in reverse (right side)
             if not dog:  # marker deed
@@ -1347,6 +1355,14 @@ class DoDoer(Doer):
         """
         if deeds is None:
             deeds = self.deeds
+
+        # When closing in the middle of a run through, the deeds left of the
+        # marker have not yet run this cycle and were entered after the deeds
+        # right of it. Rotate so popping from the right is reverse enter order.
+        for i, deed in enumerate(deeds):
+            if not deed[0]:  # run through once marker
+                deeds.rotate(-(i + 1))
+                break
 
         while(deeds):  # .close each remaining dog in deeds in reverse order
             dog, retime, doer = deeds.pop()  # pop it off in reverse (right side)
